@@ -166,6 +166,12 @@ pub fn judge(t: &Task, o: &RunOutcome) -> Vec<(String, String)> {
                     // the abandoned slot's ttl/sequence: previous attempt's successor in the send log
                     if let Some(ProbeStatus::Skipped) = next {
                         // consecutive re-issues: fine
+                    } else if next.is_none() {
+                        // the abandoned slot is the last one of the round: the probe was never re-issued
+                        // (legitimate only if the run ended right there with an error)
+                        if o.result.is_ok() {
+                            bad.push(("skipped-without-reissue".into(), format!("round {r} slot {i}: address in use at {op}, slot Skipped, but no probe was re-issued under the next sequence")));
+                        }
                     } else if next.is_some() {
                         // ttl of the skipped slot = ttl the next datagram actually carries
                         let sent_next = w.attempts.iter().filter(|a| a.round == r).nth(i + 1).and_then(|a| match a.outcome {
